@@ -17,6 +17,7 @@ import (
 	"net/http/httptest"
 	"os"
 	"regexp"
+	"strconv"
 	"strings"
 	"sync"
 
@@ -295,6 +296,46 @@ func main() {
 					t.bad("request %s saw request id %q", id, rec.Body.String())
 				}
 			})
+		}
+	}))
+
+	// ---- identifiers the middlewares generate themselves: every request gets its own request, trace and span id
+	out.Encode(scenario("generated-ids", func(t *tally) {
+		const per = 100 // requests per goroutine and round: the generator is only shared state under load
+		rounds := R
+		if rounds > 20 {
+			rounds = 20
+		}
+		ids := make([][3]string, N*rounds*per)
+		h := httpmw.RequestID()(httpmw.Trace()(http.HandlerFunc(func(w http.ResponseWriter, r *http.Request) {
+			k, _ := strconv.Atoi(r.Header.Get("X-K"))
+			rid, _ := r.Context().Value(middleware.RequestIDKey).(string)
+			tid, _ := r.Context().Value(middleware.TraceIDKey).(string)
+			sid, _ := r.Context().Value(middleware.TraceSpanIDKey).(string)
+			ids[k] = [3]string{rid, tid, sid}
+		})))
+		for r := 0; r < rounds; r++ {
+			together(N, func(i int) {
+				for j := 0; j < per; j++ {
+					t.call()
+					req := httptest.NewRequest("GET", "/x", nil)
+					req.Header.Set("X-K", strconv.Itoa((r*N+i)*per+j))
+					h.ServeHTTP(httptest.NewRecorder(), req)
+				}
+			})
+		}
+		seen := map[string]int{}
+		for k, x := range ids {
+			for j, id := range x {
+				if id == "" {
+					t.bad("request %d has no %s id", k, []string{"request", "trace", "span"}[j])
+					continue
+				}
+				if prev, dup := seen[id]; dup {
+					t.bad("requests %d and %d share the generated id %q", prev, k, id)
+				}
+				seen[id] = k
+			}
 		}
 	}))
 
